@@ -115,6 +115,7 @@ def gen_case(rng, tier="quick"):
                 seen.add(tuple(c[:3]))
                 ctrl.append(c)
     case["controls"] = ctrl
+    case["nn_diss"] = rng.random() < 0.4
     return case
 
 
@@ -190,7 +191,15 @@ def site_terms(case):
                        for _ in range(2)])
     nn_diss = []
     for i in range(n - 1):
-        if case["kind"] == "two_site" and case["dissipation"]:
+        if case["kind"] == "commuting" and case["dissipation"] \
+                and case.get("nn_diss"):
+            d, d2 = dims[i], dims[i + 1]
+            nn_diss.append([(np.diag(rng.normal(size=d)).astype(complex),
+                             np.diag(rng.normal(size=d2)).astype(complex),
+                             0.15)])
+        elif case["kind"] in ("two_site", "generic") and \
+                case["dissipation"] and (case["kind"] == "two_site"
+                                         or case.get("nn_diss")):
             d, d2 = dims[i], dims[i + 1]
             a = rng.normal(size=(d, d)) + 1j * rng.normal(size=(d, d))
             b = rng.normal(size=(d2, d2)) + 1j * rng.normal(size=(d2, d2))
